@@ -12,6 +12,7 @@ pub mod c26;
 pub mod c27;
 pub mod c28;
 pub mod c29;
+pub mod c30;
 
 pub fn register(v: &mut Vec<CheckDef>) {
     v.push(dsio::def_c01());
@@ -26,5 +27,6 @@ pub fn register(v: &mut Vec<CheckDef>) {
     v.push(c27::def());
     v.push(c28::def());
     v.push(c29::def());
+    v.push(c30::def());
     v.push(c34::def());
 }
